@@ -9,6 +9,7 @@
 import EEM.Real
 import EEM.Model.Metrics
 import EEM.Gen.MetricFormulas
+import EEM.Bridge.Corr
 import Mathlib.Tactic.Linarith
 import Mathlib.Tactic.Ring
 import Mathlib.Tactic.FieldSimp
@@ -227,21 +228,21 @@ theorem C16_daily_dq_iff (c thr : ℝ) : dailyDisqualified c thr = true ↔ thr 
 `BaselineMetrics` on every run) are the model's statistics, on the model's base quantities -/
 
 namespace MF
-export EEM.Gen.MetricFormulas (ddof ddof_autocorr nmae pnmae mbe nmbe pnmbe sse mse rmse rmse_adj rmse_autocorr_adj cvrmse
+export EEM.Gen.MetricFormulas (n_prime ddof ddof_autocorr nmae pnmae mbe nmbe pnmbe sse mse rmse rmse_adj rmse_autocorr_adj cvrmse
   cvrmse_adj cvrmse_autocorr_adj pnrmse pnrmse_adj pnrmse_autocorr_adj r_squared_adj)
 end MF
 
 /-- unadjusted statistics: the source's formula chain, evaluated on the base quantities of a series, is
 literally the model's definition (any series, any parameter count) -/
-theorem C16_src_unadjusted (ps : List (ℝ × ℝ)) (k : Nat) (np : ℝ) :
-    MF.sse (baseOf ps k np) = sse ps ∧ MF.mse (baseOf ps k np) = mse ps ∧ MF.rmse (baseOf ps k np) = rmse ps ∧
-    MF.mbe (baseOf ps k np) = mbe ps ∧ MF.cvrmse (baseOf ps k np) = cvrmse ps ∧ MF.pnrmse (baseOf ps k np) = pnrmse ps ∧
-    MF.nmae (baseOf ps k np) = nmae ps ∧ MF.nmbe (baseOf ps k np) = nmbe ps :=
+theorem C16_src_unadjusted (ps : List (ℝ × ℝ)) (k : Nat) :
+    MF.sse (baseOf ps k) = sse ps ∧ MF.mse (baseOf ps k) = mse ps ∧ MF.rmse (baseOf ps k) = rmse ps ∧
+    MF.mbe (baseOf ps k) = mbe ps ∧ MF.cvrmse (baseOf ps k) = cvrmse ps ∧ MF.pnrmse (baseOf ps k) = pnrmse ps ∧
+    MF.nmae (baseOf ps k) = nmae ps ∧ MF.nmbe (baseOf ps k) = nmbe ps :=
   ⟨rfl, rfl, rfl, rfl, rfl, rfl, rfl, rfl⟩
 
 /-- the source's float `ddof` (`n − k`, raised to 1 when below 1) is the model's integer `max(n − k, 1)` -/
-theorem C16_src_ddof (ps : List (ℝ × ℝ)) (k : Nat) (np : ℝ) :
-    MF.ddof (baseOf ps k np) = ((ddof ps k : ℕ) : ℝ) := by
+theorem C16_src_ddof (ps : List (ℝ × ℝ)) (k : Nat) :
+    MF.ddof (baseOf ps k) = ((ddof ps k : ℕ) : ℝ) := by
   unfold EEM.Gen.MetricFormulas.ddof baseOf nOf ddof
   simp only [arith_ofNat, sub_eq, ofNat_eq, Nat.cast_one]
   by_cases h : k + 1 ≤ ps.length
@@ -264,28 +265,48 @@ theorem C16_src_ddof (ps : List (ℝ × ℝ)) (k : Nat) (np : ℝ) :
     simp only [hb, if_true, Nat.cast_one]
 
 /-- adjusted statistics: the source's chain through its float `ddof` is the model's through `max(n − k, 1)` -/
-theorem C16_src_adjusted (ps : List (ℝ × ℝ)) (k : Nat) (np : ℝ) :
-    MF.rmse_adj (baseOf ps k np) = rmseAdj ps k ∧ MF.cvrmse_adj (baseOf ps k np) = cvrmseAdj ps k ∧
-    MF.pnrmse_adj (baseOf ps k np) = pnrmseAdj ps k := by
-  have h : MF.rmse_adj (baseOf ps k np) = rmseAdj ps k := by
-    show Carrier.sqrt (EEM.Gen.MetricFormulas.sse (baseOf ps k np) / EEM.Gen.MetricFormulas.ddof (baseOf ps k np)) = _
-    have := C16_src_ddof ps k np
+theorem C16_src_adjusted (ps : List (ℝ × ℝ)) (k : Nat) :
+    MF.rmse_adj (baseOf ps k) = rmseAdj ps k ∧ MF.cvrmse_adj (baseOf ps k) = cvrmseAdj ps k ∧
+    MF.pnrmse_adj (baseOf ps k) = pnrmseAdj ps k := by
+  have h : MF.rmse_adj (baseOf ps k) = rmseAdj ps k := by
+    show Carrier.sqrt (EEM.Gen.MetricFormulas.sse (baseOf ps k) / EEM.Gen.MetricFormulas.ddof (baseOf ps k)) = _
+    have := C16_src_ddof ps k
     rw [this]
     rfl
   refine ⟨h, ?_, ?_⟩
-  · show Gen.safe_divide (EEM.Gen.MetricFormulas.rmse_adj (baseOf ps k np)) _ _ = _
+  · show Gen.safe_divide (EEM.Gen.MetricFormulas.rmse_adj (baseOf ps k)) _ _ = _
     rw [h]; rfl
-  · show Gen.safe_divide (EEM.Gen.MetricFormulas.rmse_adj (baseOf ps k np)) _ _ = _
+  · show Gen.safe_divide (EEM.Gen.MetricFormulas.rmse_adj (baseOf ps k)) _ _ = _
     rw [h]; rfl
+
+/-- **the autocorrelation-corrected n**: for a lag-1 autocorrelation ρ in (−1, 1] the source reports
+`n' = n (1 − ρ)/(1 + ρ)` (the finiteness repair does not fire), it is non-negative, and it is at most n
+exactly when ρ ≥ 0 (positively correlated residuals carry less information) -/
+theorem C16_src_n_prime (b : EEM.Model.MetricBase ℝ) (hn : 0 < b.n)
+    (h1 : -1 < b.residuals_autocorr1) (h2 : b.residuals_autocorr1 ≤ 1) :
+    MF.n_prime b = b.n * (1 - b.residuals_autocorr1) / (1 + b.residuals_autocorr1) ∧
+    0 ≤ MF.n_prime b ∧ (MF.n_prime b ≤ b.n ↔ 0 ≤ b.residuals_autocorr1) := by
+  have hden : 0 < 1 + b.residuals_autocorr1 := by linarith
+  have e : MF.n_prime b = b.n * (1 - b.residuals_autocorr1) / (1 + b.residuals_autocorr1) := by
+    unfold EEM.Gen.MetricFormulas.n_prime
+    simp only [sub_eq, mul_eq, div_eq, add_eq, ofNat_eq, Nat.cast_one, Nat.cast_zero, sub_self]
+    have : Arith.eqb (0 : ℝ) 0 = true := (eqb_iff _ _).mpr rfl
+    simp only [this, if_true]
+  refine ⟨e, ?_, ?_⟩
+  · rw [e]; exact div_nonneg (mul_nonneg hn.le (by linarith)) hden.le
+  · rw [e, div_le_iff₀ hden]
+    constructor
+    · intro h; nlinarith
+    · intro h; nlinarith
 
 /-- the autocorrelation-corrected degrees of freedom never fall below 1, for ANY base quantities -/
 theorem C16_src_ddof_autocorr_ge_one (b : EEM.Model.MetricBase ℝ) : 1 ≤ MF.ddof_autocorr b := by
   unfold EEM.Gen.MetricFormulas.ddof_autocorr
   simp only [sub_eq, ofNat_eq, Nat.cast_one]
-  by_cases h : b.n_prime - b.num_model_params < 1
-  · have hb : Arith.ltb (b.n_prime - b.num_model_params) 1 = true := (ltb_iff _ _).mpr h
+  by_cases h : EEM.Gen.MetricFormulas.n_prime b - b.num_model_params < 1
+  · have hb : Arith.ltb (EEM.Gen.MetricFormulas.n_prime b - b.num_model_params) 1 = true := (ltb_iff _ _).mpr h
     simp only [hb, if_true, le_refl]
-  · have hb : Arith.ltb (b.n_prime - b.num_model_params) 1 = false := by
+  · have hb : Arith.ltb (EEM.Gen.MetricFormulas.n_prime b - b.num_model_params) 1 = false := by
       rw [Bool.eq_false_iff]; intro hc; exact h ((ltb_iff _ _).mp hc)
     simp only [hb, Bool.false_eq_true, if_false]
     exact not_lt.mp h
@@ -317,10 +338,54 @@ theorem C16_src_r_squared_adj_none_iff (b : EEM.Model.MetricBase ℝ) :
   rw [C16_safe_divide_none_iff]
   simp only [sub_eq, mul_eq, ofNat_eq, Nat.cast_one]
 
+/-! ### The correlation statistics are in range -/
+
+/-- **0 ≤ R² ≤ 1** whenever both columns have spread (without spread the real class reports NaN) -/
+theorem C16_r_squared_in_unit_interval (ps : List (ℝ × ℝ))
+    (hx : 0 < ((pred ps).map fun x => (x - mean (pred ps)) * (x - mean (pred ps))).sum)
+    (hy : 0 < ((obs ps).map fun y => (y - mean (obs ps)) * (y - mean (obs ps))).sum) :
+    0 ≤ rSquared ps ∧ rSquared ps ≤ 1 := by
+  unfold rSquared
+  refine ⟨mul_self_nonneg _, ?_⟩
+  exact EEM.Bridge.Corr.pearson_sq_le_one (pred ps) (obs ps) (by simp [pred, obs]) hx hy
+
+/-- **−1 ≤ ρ₁ ≤ 1** for the lag-1 autocorrelation of the residuals whenever the two shifted copies have spread -/
+theorem C16_autocorr_in_range (ps : List (ℝ × ℝ))
+    (hx : 0 < (((resid ps).tail).map fun x => (x - mean (resid ps).tail) * (x - mean (resid ps).tail)).sum)
+    (hy : 0 < (((resid ps).dropLast).map fun y => (y - mean (resid ps).dropLast) * (y - mean (resid ps).dropLast)).sum) :
+    -1 ≤ autocorr1 ps ∧ autocorr1 ps ≤ 1 := by
+  unfold autocorr1
+  exact EEM.Bridge.Corr.pearson_abs_le_one _ _ (by simp) hx hy
+
+/-- so on the model's base quantities the source's `n'` is the textbook `n (1 − ρ₁)/(1 + ρ₁)`, non-negative, unless the
+residuals are perfectly anti-correlated -/
+theorem C16_src_n_prime_of_series (ps : List (ℝ × ℝ)) (k : Nat) (h : ps ≠ [])
+    (hx : 0 < (((resid ps).tail).map fun x => (x - mean (resid ps).tail) * (x - mean (resid ps).tail)).sum)
+    (hy : 0 < (((resid ps).dropLast).map fun y => (y - mean (resid ps).dropLast) * (y - mean (resid ps).dropLast)).sum)
+    (hne : autocorr1 ps ≠ -1) :
+    MF.n_prime (baseOf ps k) = nOf ps * (1 - autocorr1 ps) / (1 + autocorr1 ps) ∧ 0 ≤ MF.n_prime (baseOf ps k) := by
+  have hr := C16_autocorr_in_range ps hx hy
+  have h1 : -1 < (baseOf ps k).residuals_autocorr1 := lt_of_le_of_ne hr.1 (Ne.symm hne)
+  have := C16_src_n_prime (baseOf ps k) (nOf_pos h) h1 hr.2
+  exact ⟨this.1, this.2.1⟩
+
 /-! ### Non-vacuity -/
 example : finitePairs [(some (1:ℝ), some 2), (none, some 3), (some 3, some 2)] ≠ [] := by
   unfold finitePairs
   rw [List.filterMap_cons]
   exact List.cons_ne_nil _ _
+
+/-- the spread hypotheses are satisfiable: observed 1, 3, 2 against predicted 2, 2, 4 -/
+example : 0 < ((pred [((1:ℝ), (2:ℝ)), (3, 2), (2, 4)]).map fun x =>
+    (x - mean (pred [((1:ℝ), (2:ℝ)), (3, 2), (2, 4)])) * (x - mean (pred [((1:ℝ), (2:ℝ)), (3, 2), (2, 4)]))).sum := by
+  have hm : mean (pred [((1:ℝ), (2:ℝ)), (3, 2), (2, 4)]) = 8 / 3 := by
+    unfold mean pred
+    simp only [List.map_cons, List.map_nil, asum, List.length_cons, List.length_nil, arith_ofNat, add_eq, div_eq, ofNat_eq]
+    push_cast
+    ring
+  rw [hm]
+  unfold pred
+  simp only [List.map_cons, List.map_nil, List.sum_cons, List.sum_nil]
+  nlinarith
 
 end EEM.Props.C16
